@@ -8,6 +8,11 @@ BioAgents behind a recorder - and a virtual clock.  A case is a history of
 operations (run(prompt), clear_cache(), reset_circuit_breaker(), the read-only
 calls) against one or two loop objects; the property itself is checked on every reply (monitor), and
 every observation is compared with the Coq model (coq/C07/Model.v, run_case).
+Requests may OVERLAP on one loop object: a request can be begun ("b"), is then suspended inside its
+executor's or its assessor's express(), any other operations (whole requests, further begins, clear_cache
+...) are carried out, and it is ended ("e") later at another clock value - either by a second thread
+(every begun request runs on a thread of its own, hand-shaking with the driver so that exactly one thread
+runs at a time) or re-entrantly (the suspended agent itself carries out the operations in between).
 translate() rebuilds the gate decision table by calling the real
 _apply_gate_logic on every combination and writes it to coq/gen/Gen_C07.v, where
 Gen_C07_ok / Gen_C07_complete must re-prove that the model's gate is that table.
@@ -16,6 +21,7 @@ import contextlib
 import hashlib
 import io
 import itertools
+import threading
 import unicodedata
 from datetime import datetime as _real_datetime, timedelta as _timedelta
 
@@ -144,20 +150,36 @@ class VClock:
         return BASE + _timedelta(milliseconds=self.t)
 
 
-class Stub:
-    """Replaces a BioAgent: has .name and .express(signal)."""
+class HarnessBug(BaseException):
+    """A mistake of the driver (not an `Exception`: run() must not swallow it as an agent error)."""
 
-    def __init__(self, name, AP):
+
+class Abandon(BaseException):
+    """Raised inside a request that is still in flight when the history is over."""
+
+
+class Stub:
+    """Replaces a BioAgent: has .name and .express(signal).  What it answers is part of the REQUEST it is
+    asked at (the request on top of the calling thread's stack), never of the text it is handed; if that
+    request is to be suspended in this agent, the driver's `park` runs before the answer is given."""
+
+    def __init__(self, name, AP, role=0, ctx=None):
         self.name = name
         self.AP = AP
-        self.calls = 0
-        self.next = (0, 0)
-        self.seen = []
+        self.role = role            # 0 = executor, 1 = assessor
+        self.ctx = ctx
 
     def express(self, signal):
-        self.calls += 1
-        self.seen.append(signal.content)
-        code, var = self.next
+        st = getattr(self.ctx, "stack", None)
+        if not st:
+            raise HarnessBug(f"agent {self.name!r} invoked outside any request of the history")
+        rq = st[-1]
+        rq["called"][self.role] += 1
+        rq["shown"].append(signal.content)
+        if rq.get("suspend") == self.role and not rq.get("suspended"):
+            rq["suspended"] = True
+            rq["park"](rq)
+        code, var = rq["script"][self.role]
         if code == 7:
             raise EXCS[var % len(EXCS)](f"stub {self.name!r} crashed")
         s = VERDICT_STR[code] if code < 6 else OTHER_STRS[var % len(OTHER_STRS)]
@@ -248,7 +270,11 @@ class C07(Check):
             "prompts incl. dangerous, 'calculate', 'deploy', injection text; one in nine with an executor of a role the mock "
             "LLM does not know); per base text one history in which the text is approved and every re-spelling of it is then "
             "sent within the TTL; one 1012-request history that overflows the 1000-entry cache and the 1000-entry results "
-            "log. random: 1..14 operations (5% clear_cache, 7% read-only calls, 4% reset_circuit_breaker) on 1 or 2 loops over "
+            "log; overlapping requests: 6 logics x (own thread / re-entrant agent) x suspended in the executor / the "
+            "assessor x 11 situations (another prompt / the same prompt answered meanwhile, cache cleared meanwhile, TTL "
+            "counted from the return, two and three requests in flight (LIFO and, with threads, FIFO), both for one prompt, "
+            "a begin that is served from the cache / rejected at once, breaker tripped by a request in flight, the other "
+            "loop object) over 10 verdict pairs = 252 histories. random: 1..14 operations (5% clear_cache, 7% read-only calls, 4% reset_circuit_breaker) on 1 or 2 loops over "
             "the re-spellings of one base text plus 0..2 unrelated texts; prompt alphabet = 23 base texts x 30 re-spellings "
             "(whitespace, case, NFC/NFD/NFKC/NFKD, full-width, ligatures, homoglyphs, zero-width/BOM/NUL, truncations and "
             "extensions beyond 16/64 chars; non-BMP, RTL, Hangul, combining sequences); clock steps in {0,1,40,50,60,999,1000,"
@@ -256,9 +282,12 @@ class C07(Check):
             "breaker off (40%) / on with an unreachable threshold (15%) / on with failure_threshold in {-1,0,1,2,3,5} and "
             "recovery time in {-1000,0,1,50,1000,1001,5000,60000} ms (45%), silent on/off (25% off, stdout captured), recording "
             "on_block/on_permit callbacks in 40%, built-in agents in 8%, 4 assessor names, 9 spellings of 'other' verdicts, 6 "
-            "exception classes, per-history crash rates up to 40%. distinct by case content; non-trivial = every enumerated "
+            "exception classes, per-history crash rates up to 40%; 3 in 8 random histories have overlapping requests (2 in 8 "
+            "threads, 1 in 8 re-entrant): up to 3 in flight, ended in any order (threads) / innermost first (re-entrant), 15% "
+            "of the threaded ones leave requests suspended for good, and end by asking for two of the prompts again. "
+            "distinct by case content; non-trivial = every enumerated "
             "cell, and a random history only if it contains a cache hit, an expiry, an exception, a breaker rejection or a "
-            "not-blocked reply")
+            "not-blocked reply or a request that was suspended")
     LEVEL_TEXT = ("Coq theorems about a hand-written model of CoherentFeedForwardLoop.run/_apply_gate_logic/clear_cache and, as a "
                   "layer on top, its circuit breaker: for all 6 logics and all verdict pairs the result is not-blocked iff an "
                   "independently transcribed spec_pass holds; exceptions and unknown verdicts block; a token is attached iff "
@@ -272,14 +301,21 @@ class C07(Check):
                   "recovery time) only ever rejects: the admitted steps of a history are exactly the history of the admitted "
                   "operations on the loop without a breaker and every other request is the blocked CIRCUIT_OPEN result "
                   "without token, cache untouched, nobody asked - so no reply passes, carries a token or is cached because of "
-                  "the breaker; two loop objects driven interleaved do not influence each other. The gate table is "
+                  "the breaker; two loop objects driven interleaved do not influence each other; requests that OVERLAP on one "
+                  "loop object (any number in flight, any operations between the begin and the end of each, any clock values): "
+                  "the reply of a request that was in flight is the gate's outcome on its own prompt and its own agents' "
+                  "verdicts, every not-blocked reply goes back to a request whose verdicts satisfied the logic, every token "
+                  "is bound to H of the prompt being answered, a cached reply repeats the uncached reply of a request for "
+                  "the same prompt that had returned before, within the TTL counted from that return; histories without "
+                  "overlap are exactly the sequential ones. The gate table is "
                   "regenerated from the real _apply_gate_logic on every run and re-proved equal to the model's.")
     LEVEL_NOTE = ("Trusts: Coq kernel+VM; harness and enumeration translator; sha256/md5 truncations abstract (H, K), both "
                   "injective on each history's prompts (checked per case); configuration not mutated between requests. "
                   "Axioms: none (Print Assumptions: closed).")
     TECHNIQUE = ("Coq: exhaustive case analysis for the finite gate table + induction over the operation history with a cache "
                  "provenance invariant + refinement lemma (breaker history -> admitted sub-history) + projection lemma for "
-                 "two objects; table regenerated by enumeration of the real function; vm_compute correspondence against "
+                 "two objects + two-half (enter/leave) small-step semantics of run() with a cache provenance invariant over "
+                 "arbitrary interleavings; table regenerated by enumeration of the real function; vm_compute correspondence against "
                  "CoherentFeedForwardLoop.run")
     TRUSTED = ["modelled not verified: sha256(prompt)[:16] and md5(prompt)[:16] are abstract functions H and K; the harness "
                "checks on every case that both are injective on the prompts of the case and observes only whether "
@@ -293,9 +329,17 @@ class C07(Check):
                "asked and which is blocked, token-less, CIRCUIT_OPEN on a loop with the breaker enabled counts as a breaker "
                "rejection (blocked: nothing more is demanded of it)",
                "the breaker's state is not observed directly, only through which requests it rejects (its own "
-               "behaviour is C08); on_block/on_permit are recording callbacks or absent, never raising ones; one thread; "
+               "behaviour is C08); on_block/on_permit are recording callbacks or absent, never raising ones; "
                "stdout captured when silent=False and around the built-in agents (which always print)",
-               "virtual clock: loops.datetime rebound to an object whose now() is constant during one request; times, "
+               "overlapping requests: a request gives up control only inside executor.express() / assessor.express() "
+               "(where a re-entrant call can happen and where a request spends its time); the two halves of run() before "
+               "and after that point are taken as atomic - each begun request runs on its own real thread (or, re-entrant "
+               "histories, on the thread of the request it is nested in), hand-shaking with the driver so that exactly one "
+               "thread runs at a time; pre-emption between two lines of one half is not explored. Which agent a request is "
+               "suspended in is varied by the harness but is not an input of the model (the loop touches none of its state "
+               "between the two express() calls); a stub answers according to the request whose run() invoked it, not "
+               "according to the text it is handed",
+               "virtual clock: loops.datetime rebound to an object whose now() is constant during one half of a request (a request that is suspended ends at a later clock value than it began); times, "
                "TTLs and recovery times are whole milliseconds (x_seconds = ms/1000.0, exact in timedelta's microseconds)"]
     ASSUMPTIONS = ["cache theorem: md5(prompt)[:16] (K) is injective on the prompts of the history; token theorems: so is sha256(prompt)[:16] (H)",
                    "gate_logic, assessor.name, cache_ttl, enable_cache and the breaker settings are not mutated between requests of one history",
@@ -330,8 +374,8 @@ class C07(Check):
             lcode = LOGIC_NAMES.index(m.name) if m.name in LOGIC_NAMES else 99
             loop = L.CoherentFeedForwardLoop(budget=ATP_Store(budget=100, silent=True), gate_logic=m,
                                              enable_circuit_breaker=False, enable_cache=False, silent=True)
-            loop.assessor = Stub("assessor", ActionProtein)
-            loop.executor = Stub("executor", ActionProtein)
+            loop.assessor = Stub("assessor", ActionProtein, 1)
+            loop.executor = Stub("executor", ActionProtein, 0)
             for (zc, zs), (yc, ys) in itertools.product(variants, variants):
                 try:
                     r = loop._apply_gate_logic(ActionProtein(zs, "z", 0.5), ActionProtein(ys, "y", 0.5), "some prompt")
@@ -369,7 +413,9 @@ class C07(Check):
             ps += rng.sample(PROMPTS, rng.choice([0, 1, 1, 2]))
             ps = list(dict.fromkeys(ps))
             nloops = rng.choice([1, 1, 1, 2])
-            builtin = rng.random() < 0.08       # the loop's own BioAgents (behind a recorder) instead of stubs
+            # a quarter of the histories have requests that overlap on a loop object (second thread / re-entrant agent)
+            overlap = rng.choice([None, None, None, None, None, "threads", "threads", "nested"])
+            builtin = overlap is None and rng.random() < 0.08       # the loop's own BioAgents (behind a recorder) instead of stubs
             loops = []
             for _k in range(nloops):
                 u = rng.random()
@@ -392,9 +438,17 @@ class C07(Check):
             bias_z, bias_y = rng.choice([0, 0, 1, 2, 3, 5]), rng.choice([1, 1, 1, 2, 0, 4])
             crash = rng.choice([0.0, 0.05, 0.15, 0.4])
             ops = []
+            flying = []             # requests begun and not yet ended: (loop, id)
+            next_id = 0
             for _i in range(k):
                 lp = rng.randrange(nloops)
                 u = rng.random()
+                if overlap and flying and rng.random() < 0.3:
+                    # a request in flight returns (re-entrant histories: the innermost one)
+                    elp, rid = flying.pop() if overlap == "nested" else flying.pop(rng.randrange(len(flying)))
+                    t += rng.choice(self.STEPS)
+                    ops.append([elp, "e", rid, t])
+                    continue
                 if u < 0.05:
                     ops.append([lp, "c"])
                     continue
@@ -414,8 +468,84 @@ class C07(Check):
                         y = 7
                 if builtin:
                     z = y = 0           # not scripted: the built-in agents answer (recorded at run time)
+                if overlap and len(flying) < 3 and rng.random() < 0.45:
+                    ops.append([lp, "b", next_id, rng.choice(ps), t, z, rng.randrange(9), y, rng.randrange(9), rng.randrange(2)])
+                    flying.append((lp, next_id))
+                    next_id += 1
+                    continue
                 ops.append([lp, "r", rng.choice(ps), t, z, rng.randrange(9), y, rng.randrange(9)])
+            if overlap:
+                # the requests still in flight return (a threaded history may leave some suspended for good),
+                # then the prompts are asked for once more: what did the overlap leave in the cache?
+                leave = overlap == "threads" and rng.random() < 0.15
+                while flying and not leave:
+                    elp, rid = flying.pop()
+                    t += rng.choice(self.STEPS)
+                    ops.append([elp, "e", rid, t])
+                for p in rng.sample(ps, min(len(ps), 2)):
+                    t += rng.choice([0, 1, 40])
+                    ops.append([rng.randrange(nloops), "r", p, t, 2, 0, 2, 0])
+                out.append({"loops": loops, "ops": ops, "overlap": overlap})
+                continue
             out.append({"loops": loops, "ops": ops})
+        return out
+
+    # requests that overlap on one loop object.  Every gate logic x how the request is kept in flight (its own
+    # thread / the agent re-enters the loop) x the agent it is suspended in x what happens meanwhile
+    OVERLAP_PAIRS = [((0, 1), (2, 2)), ((2, 2), (0, 1)), ((0, 1), (0, 0)), ((1, 1), (7, 1)), ((7, 1), (0, 1)),
+                     ((0, 7), (1, 1)), ((3, 2), (0, 1)), ((0, 4), (0, 1)), ((0, 0), (2, 1)), ((5, 1), (0, 2))]
+    OVERLAP_SCENARIOS = ["other-prompt", "same-prompt", "cleared-meanwhile", "stamped-at-return", "two-in-flight",
+                         "two-in-flight-fifo", "begin-returns-at-once", "breaker", "three-deep", "other-loop",
+                         "same-prompt-both-in-flight"]
+
+    def _overlap_cases(self):
+        out = []
+        i = 0
+        for l in range(6):
+            for mode in ("threads", "nested"):
+                for where in (0, 1):
+                    for sc in self.OVERLAP_SCENARIOS:
+                        if sc == "two-in-flight-fifo" and mode == "nested":
+                            continue        # a re-entrant call returns before its caller does
+                        (az, ay), (bz, by) = self.OVERLAP_PAIRS[i % len(self.OVERLAP_PAIRS)]
+                        p, q, q3 = PROMPTS[i % len(PROMPTS)], PROMPTS[(i + 7) % len(PROMPTS)], PROMPTS[(i + 13) % len(PROMPTS)]
+                        if len({p, q, q3}) < 3:
+                            p, q, q3 = "a", "b", "deploy"
+                        A = lambda t, pr=p, lp=0, rid=0, z=az, y=ay, w=where: [lp, "b", rid, pr, t, z, i, y, i // 3, w]
+                        R = lambda pr, t, z, y, lp=0: [lp, "r", pr, t, z, i, y, i // 3]
+                        E = lambda t, rid=0, lp=0: [lp, "e", rid, t]
+                        cfg = self._cfg(l, ttl=300000, name=i % len(NAMES), silent=(i % 5 != 0), callbacks=(i % 3 == 0))
+                        loops = [cfg]
+                        if sc == "other-prompt":
+                            ops = [A(0), R(q, 1, bz, by), E(2), R(p, 3, 2, 2), R(q, 4, 0, 1), R(p, 5, bz, by)]
+                        elif sc == "same-prompt":
+                            ops = [A(0), R(p, 1, bz, by), E(2), R(p, 3, 2, 2), [0, "c"], R(p, 4, bz, by), A(5, rid=1), R(p, 6, 0, 1), E(7, rid=1)]
+                        elif sc == "cleared-meanwhile":
+                            ops = [R(q, 0, bz, by), A(1), [0, "c"], R(q3, 2, 0, 1), [0, "o"], E(3), R(p, 4, 2, 2), R(q, 5, 0, 1)]
+                        elif sc == "stamped-at-return":
+                            cfg["ttl"] = 50
+                            ops = [A(0), R(q, 30, bz, by), E(1000), R(p, 1049, 2, 2), R(p, 1050, bz, by), R(q, 1051, 0, 1)]
+                        elif sc == "two-in-flight":
+                            ops = [A(0), A(1, pr=q, rid=1, z=bz, y=by, w=1 - where), R(p, 2, 0, 0), E(3, rid=1), E(4), R(p, 5, 2, 2), R(q, 6, 0, 1)]
+                        elif sc == "two-in-flight-fifo":
+                            ops = [A(0), A(1, pr=q, rid=1, z=bz, y=by, w=1 - where), E(2), R(q3, 3, 0, 1), E(4, rid=1), R(p, 5, 2, 2), R(q, 6, 0, 1)]
+                        elif sc == "begin-returns-at-once":
+                            ops = [R(p, 0, az, ay), A(1, z=bz, y=by), R(q, 2, 0, 1), E(3), A(4, pr=q, rid=1, z=bz, y=by), E(5, rid=1), E(6, rid=7)]
+                        elif sc == "breaker":
+                            cfg.update(breaker=True, threshold=1, recovery=1000)
+                            ops = [R(p, 0, 0, 1), A(1, pr=q, z=7, y=1), R(q3, 2, bz, by), E(3), R(p, 4, 0, 1), A(5, pr=q3, rid=1),
+                                   A(1003, pr=q, rid=2, z=az, y=ay), R(p, 1004, 2, 2), E(1005, rid=2), E(1006, rid=1), R(q, 1007, 2, 2)]
+                        elif sc == "three-deep":
+                            ops = [A(0), A(1, pr=q, rid=1, z=bz, y=by), A(2, pr=q3, rid=2, z=0, y=1, w=1 - where), R(p, 3, bz, by), E(4, rid=2),
+                                   R(q3, 5, 2, 2), E(6, rid=1), E(7), R(p, 8, 2, 2), R(q, 9, 2, 2)]
+                        elif sc == "other-loop":
+                            loops = [cfg, dict(cfg, logic=(l + 1) % 6)]
+                            ops = [A(0), R(p, 1, bz, by, lp=1), A(2, pr=q, lp=1, rid=1, z=bz, y=by), R(q, 3, 0, 1), E(4, rid=1, lp=1), E(5),
+                                   R(p, 6, 2, 2), R(p, 7, 2, 2, lp=1), R(q, 8, 2, 2, lp=1)]
+                        else:   # same-prompt-both-in-flight: both miss, both ask the agents, both store
+                            ops = [A(0), A(1, rid=1, z=bz, y=by), E(2, rid=1), R(p, 3, 2, 2), E(4), R(p, 5, 2, 2)]
+                        out.append({"loops": loops, "ops": ops, "overlap": mode})
+                        i += 1
         return out
 
     # the circuit breaker may only REJECT.  Every gate logic x how it is tripped x where the clock stands
@@ -532,6 +662,7 @@ class C07(Check):
         out += self._cache_state_cases()
         out += self._breaker_cases()
         out += self._builtin_cases()
+        out += self._overlap_cases()
         # every re-spelling of a text is a request of its own: the text is approved and cached first,
         # then each re-spelling is sent within the TTL while the agents would now block
         for b in BASES:
@@ -580,6 +711,13 @@ class C07(Check):
         saved = L.datetime
         L.datetime = clock
         sink = io.StringIO()
+        mode = case.get("overlap")          # None | "threads" | "nested": how begun requests are kept in flight
+        ctx = threading.local()             # per thread: the stack of requests whose run() is executing on it
+        ops = case["ops"]
+        obs, recs, said = [None] * len(ops), [None] * len(ops), []
+        inflight, workers = {}, []          # (loop, id) -> request suspended in an agent; threads started
+        abandon = threading.Event()
+        state = {"pos": 0}
         try:
             with contextlib.redirect_stdout(sink):
                 objs = []
@@ -602,79 +740,214 @@ class C07(Check):
                             loop.executor = BioAgent("Gene_Z (Exec)", role="Planner", atp_store=loop.budget)
                         ex, asr = Recorder(loop.executor), Recorder(loop.assessor)
                     else:
-                        ex = Stub("Gene_Z (Exec)" if cfg["name"] != 2 else "Z", ActionProtein)
-                        asr = Stub(NAMES[cfg["name"]], ActionProtein)
+                        ex = Stub("Gene_Z (Exec)" if cfg["name"] != 2 else "Z", ActionProtein, 0, ctx)
+                        asr = Stub(NAMES[cfg["name"]], ActionProtein, 1, ctx)
                     loop.executor, loop.assessor = ex, asr
                     objs.append((loop, ex, asr, events))
-                obs, recs, said = [], [], []
-                for op in case["ops"]:
-                    lp, kind = op[0], op[1]
-                    loop, ex, asr, events = objs[lp]
-                    cfg = case["loops"][lp]
-                    if kind == "c":
-                        loop.clear_cache()
-                        recs.append({"op": "c", "loop": lp})
-                        obs.append([self._cache_size(loop)])
-                        continue
-                    if kind == "o":
-                        loop.get_statistics()
-                        loop.get_results_log()
-                        loop.get_results_log(5)
-                        loop.get_results_log(0)
-                        loop.get_circuit_breaker_stats()
-                        recs.append({"op": "o", "loop": lp})
-                        obs.append([self._cache_size(loop)])
-                        continue
-                    if kind == "x":
-                        loop.reset_circuit_breaker()
-                        recs.append({"op": "x", "loop": lp})
-                        obs.append([self._cache_size(loop)])
-                        continue
-                    (p, t, z, zv, y, yv) = op[2:]
-                    clock.t = t
-                    builtin = str(cfg.get("agents")).startswith("builtin")
-                    if not builtin:
-                        ex.next, asr.next = (z, zv), (y, yv)
-                    e0, a0, s0, s1, c0 = ex.calls, asr.calls, len(ex.seen), len(asr.seen), len(events)
-                    rec = {"op": "r", "loop": lp, "prompt": p, "t": t, "z": z, "y": y}
+
+                def call_run(lp, rq):
+                    """loop.run(prompt) on the calling thread, with rq on top of that thread's request stack."""
+                    loop = objs[lp][0]
+                    st = ctx.__dict__.setdefault("stack", [])
+                    st.append(rq)
                     try:
-                        res = common.call_with_watchdog(lambda: loop.run(p), 5.0) if builtin else loop.run(p)
-                    except common.Hang:
-                        raise
-                    except Exception as e:
-                        rec["raised"] = type(e).__name__
-                        recs.append(rec)
+                        try:
+                            if rq["builtin"]:
+                                rq["res"] = common.call_with_watchdog(lambda: loop.run(rq["prompt"]), 5.0)
+                            else:
+                                rq["res"] = loop.run(rq["prompt"])
+                        except common.Hang:
+                            raise
+                        except Exception as e:
+                            rq["raised"] = type(e).__name__
+                    finally:
+                        st.pop()
+
+                def new_rq(i, lp, p, t, z, zv, y, yv, suspend=None):
+                    loop, ex, asr, events = objs[lp]
+                    builtin = str(case["loops"][lp].get("agents")).startswith("builtin")
+                    return {"index": i, "loop": lp, "prompt": p, "script": ((z, zv), (y, yv)), "called": [0, 0], "shown": [],
+                            "suspend": suspend, "builtin": builtin, "c0": len(events),
+                            "e0": getattr(ex, "calls", 0), "a0": getattr(asr, "calls", 0),
+                            "s0": len(getattr(ex, "seen", ())), "s1": len(getattr(asr, "seen", ())),
+                            "rec": {"op": "r", "loop": lp, "prompt": p, "t": t, "z": z, "y": y, "begun": i}}
+
+                def finish(i, rq):
+                    """run() of request rq has returned: its record and its observation row, at position i."""
+                    lp, p = rq["loop"], rq["prompt"]
+                    loop, ex, asr, events = objs[lp]
+                    rec = rq["rec"]
+                    rec["done"] = i
+                    recs[i] = rec
+                    if "raised" in rq:
+                        rec["raised"] = rq["raised"]
                         said.append((5, 5))
-                        obs.append([-997])
-                        continue
-                    if builtin:
+                        obs[i] = [-997]
+                        return
+                    res = rq["res"]
+                    if rq["builtin"]:
                         # the verdicts of this request are what the built-in agents answered when asked at it
-                        rec["z"] = z = ex.last[0] if ex.calls > e0 else 5
-                        rec["y"] = y = asr.last[0] if asr.calls > a0 else 5
-                    said.append((z, y))
+                        ec, ac = ex.calls - rq["e0"], asr.calls - rq["a0"]
+                        rec["z"] = ex.last[0] if ec else 5
+                        rec["y"] = asr.last[0] if ac else 5
+                        shown = ex.seen[rq["s0"]:] + asr.seen[rq["s1"]:]
+                    else:
+                        ec, ac = rq["called"]
+                        shown = rq["shown"]
+                    said.append((rec["z"], rec["y"]))
                     tok = res.approval_token
-                    shown = ex.seen[s0:] + asr.seen[s1:]
+                    mine = [(k, r) for k, r in events[rq["c0"]:] if r is res]
                     rec.update(blocked=bool(res.blocked), success=bool(res.success), action=res.action,
                                token=None if tok is None else (tok.request_hash, tok.issuer),
-                               cached=bool(res.cached), exec_called=ex.calls - e0, assess_called=asr.calls - a0,
-                               assessor_name=asr.name, callbacks=[k for k, _r in events[c0:]],
-                               callbacks_same_object=all(r is res for _k, r in events[c0:]))
-                    recs.append(rec)
+                               cached=bool(res.cached), exec_called=ec, assess_called=ac,
+                               assessor_name=asr.name, callbacks=[k for k, _r in mine],
+                               overlapped=bool(rq.get("suspended")))
                     try:
                         want = sha16(p)
                     except UnicodeEncodeError:
                         want = None
-                    obs.append([int(rec["blocked"]), int(rec["success"]), ACTION_CODE.get(res.action, 99),
-                                int(tok is not None),
-                                int(tok is not None and tok.request_hash == want),
-                                int(tok is not None and tok.issuer == asr.name),
-                                int(rec["cached"]), ex.calls - e0, asr.calls - a0,
-                                -1 if not shown else int(all(c == p for c in shown)),
-                                self._cache_size(loop)])
+                    obs[i] = [int(rec["blocked"]), int(rec["success"]), ACTION_CODE.get(res.action, 99),
+                              int(tok is not None),
+                              int(tok is not None and tok.request_hash == want),
+                              int(tok is not None and tok.issuer == asr.name),
+                              int(rec["cached"]), ec, ac,
+                              -1 if not shown else int(all(c == p for c in shown)),
+                              self._cache_size(loop)]
+
+                def in_flight_row(rq):
+                    i, lp = rq["index"], rq["loop"]
+                    inflight[(lp, rq["id"])] = rq
+                    recs[i] = {"op": "b", "loop": lp, "prompt": rq["prompt"], "id": rq["id"]}
+                    obs[i] = [-3, self._cache_size(objs[lp][0])]
+
+                def begin(i, op):
+                    (lp, _k, rid, p, t, z, zv, y, yv, where) = op
+                    clock.t = t
+                    rq = new_rq(i, lp, p, t, z, zv, y, yv, suspend=0 if z == 7 else int(where))
+                    rq["id"] = rid
+                    if rq["builtin"]:
+                        raise HarnessBug("overlapping requests are driven with stub agents only")
+                    if mode == "nested":
+                        def park(rq):       # runs inside the agent: the operations up to this request's end
+                            in_flight_row(rq)
+                            try:
+                                interp(rq)
+                            except (HarnessBug, Abandon):
+                                raise
+                            except BaseException as e:      # must not look like an agent error to run()
+                                raise HarnessBug(f"{type(e).__name__}: {e}")
+                        rq["park"] = park
+                        call_run(lp, rq)
+                        if rq.get("suspended"):
+                            if "end" in rq:
+                                finish(rq["end"], rq)
+                        else:
+                            finish(i, rq)                   # came back at once: rejected, or served from the cache
+                        return
+                    if mode != "threads":
+                        raise HarnessBug("a begun request needs case['overlap'] = 'threads' or 'nested'")
+                    rq["gate"], rq["evt"] = threading.Event(), threading.Event()
+
+                    def park(rq):           # runs on the request's own thread
+                        in_flight_row(rq)
+                        rq["evt"].set()
+                        rq["gate"].wait()
+                        if abandon.is_set():
+                            raise Abandon()
+
+                    def worker():
+                        try:
+                            call_run(lp, rq)
+                        except BaseException as e:  # noqa
+                            rq["bug"] = e
+                        finally:
+                            rq["finished"] = True
+                            rq["evt"].set()
+                    rq["park"] = park
+                    th = threading.Thread(target=worker, daemon=True)
+                    workers.append(th)
+                    th.start()
+                    if not rq["evt"].wait(5.0):
+                        raise common.Hang()
+                    if rq.get("finished"):
+                        th.join(2.0)
+                        if "bug" in rq:
+                            raise HarnessBug(f"{type(rq['bug']).__name__}: {rq['bug']}")
+                        finish(i, rq)
+
+                def end(i, op, until):
+                    (lp, _k, rid, t) = op
+                    rq = inflight.get((lp, rid))
+                    if rq is None:
+                        recs[i] = {"op": "e", "loop": lp, "id": rid}
+                        obs[i] = [-2, self._cache_size(objs[lp][0])]
+                        return False
+                    clock.t = t
+                    del inflight[(lp, rid)]
+                    if mode == "nested":
+                        if until is not rq:
+                            raise HarnessBug("re-entrant histories must be well bracketed")
+                        rq["end"] = i
+                        return True         # back into the agent: the request goes on and returns
+                    rq["evt"].clear()
+                    rq["gate"].set()
+                    if not rq["evt"].wait(5.0):
+                        raise common.Hang()
+                    if "bug" in rq:
+                        raise HarnessBug(f"{type(rq['bug']).__name__}: {rq['bug']}")
+                    finish(i, rq)
+                    return False
+
+                def interp(until=None):
+                    while state["pos"] < len(ops):
+                        i = state["pos"]
+                        state["pos"] += 1
+                        op = ops[i]
+                        lp, kind = op[0], op[1]
+                        loop = objs[lp][0]
+                        if kind == "c":
+                            loop.clear_cache()
+                        elif kind == "o":
+                            loop.get_statistics()
+                            loop.get_results_log()
+                            loop.get_results_log(5)
+                            loop.get_results_log(0)
+                            loop.get_circuit_breaker_stats()
+                        elif kind == "x":
+                            loop.reset_circuit_breaker()
+                        elif kind == "b":
+                            begin(i, op)
+                            continue
+                        elif kind == "e":
+                            if end(i, op, until):
+                                return
+                            continue
+                        else:
+                            (p, t, z, zv, y, yv) = op[2:]
+                            clock.t = t
+                            rq = new_rq(i, lp, p, t, z, zv, y, yv)
+                            call_run(lp, rq)
+                            finish(i, rq)
+                            continue
+                        recs[i] = {"op": kind, "loop": lp}
+                        obs[i] = [self._cache_size(loop)]
+
+                try:
+                    interp()
+                except HarnessBug as e:
+                    raise RuntimeError(f"driver: {e}")
+            if any(r is None for r in recs):
+                raise RuntimeError("driver: an operation of the history left no record")
             if any(str(c.get("agents")).startswith("builtin") for c in case["loops"]):
                 self._said[self._key(case)] = said
             return obs, {"recs": recs, "logics": [LOGIC_NAMES[c["logic"]] for c in case["loops"]]}
         finally:
+            abandon.set()
+            for rq in list(inflight.values()):
+                if "gate" in rq:
+                    rq["gate"].set()
+            for th in workers:
+                th.join(2.0)
             L.datetime = saved
 
     # -- model input -------------------------------------------------------------
@@ -699,6 +972,11 @@ class C07(Check):
                 if said is not None:
                     z, y = next(said)
                 ops.append(ctuple(b, f"CReq {cstr(p)} {cz(t)} {VERDICT_COQ[z]} {VERDICT_COQ[y]}"))
+            elif op[1] == "b":
+                (rid, p, t, z, _zv, y, _yv, _where) = op[2:]
+                ops.append(ctuple(b, f"CBegin {cz(rid)} {cstr(p)} {cz(t)} {VERDICT_COQ[z]} {VERDICT_COQ[y]}"))
+            elif op[1] == "e":
+                ops.append(ctuple(b, f"CEnd {cz(op[2])} {cz(op[3])}"))
             else:
                 ops.append(ctuple(b, {"c": "CClear", "o": "CObserve", "x": "CReset"}[op[1]]))
         loops = case["loops"]
@@ -708,7 +986,7 @@ class C07(Check):
     def monitor(self, case, obs, trace):
         if trace.get("harness_error") or trace.get("hang"):
             return Violation("C07/harness", f"the loop could not be driven: {trace}")
-        prompts = {op[2] for op in case["ops"] if op[1] == "r"}
+        prompts = self._prompts(case)
         encodable = []
         for p in prompts:
             try:
@@ -717,9 +995,13 @@ class C07(Check):
                 pass
         if len({k for k, _ in encodable}) != len(encodable) or len({h for _, h in encodable}) != len(encodable):
             return None     # truncated-hash collision among this history's prompts: outside the stated assumption
-        # (loop, prompt) -> the latest reply to this prompt for which this loop's agents were actually asked.
+        # (loop, prompt) -> the latest reply to this prompt for which this loop's agents were actually asked
+        # (first in the list), followed by the other such replies that were in flight together with it: when
+        # requests for one prompt overlap, each of them is an original a later cached reply may repeat.
         # Whether a reply is "cached" is decided by what the stubs saw (was anybody asked at this request?),
-        # never by what the loop says about its own reply.
+        # never by what the loop says about its own reply.  A reply belongs to the position in the history at
+        # which its run() returned; what the agents said "at this request" is what they answered to THIS
+        # call of run(), whatever other requests were in flight meanwhile.
         original = {}
         token_for = {}      # request hash on a token -> the prompt it was given for
         for i, r in enumerate(trace["recs"]):
@@ -735,10 +1017,12 @@ class C07(Check):
                     and r["action"] == "CIRCUIT_OPEN" and case["loops"][r["loop"]].get("breaker"):
                 continue        # turned away by the circuit breaker: blocked, no token, nobody asked - not a cached reply
             if r["exec_called"] == 0 and r["assess_called"] == 0:
-                o = original.get((r["loop"], r["prompt"]))
-                if o is None:
+                cands = original.get((r["loop"], r["prompt"]))
+                if not cands:
                     return Violation("C07/cache-no-original", f"request {i} ({r['prompt']!r}) was answered without asking the agents but no earlier reply of this loop to this prompt exists for which they were asked")
-                if verdict != (o["blocked"], o["success"], o["action"], o["token"]):
+                o = next((c for c in cands if verdict == (c["blocked"], c["success"], c["action"], c["token"])), None)
+                if o is None:
+                    o = cands[0]
                     return Violation("C07/cache-differs", f"request {i} ({r['prompt']!r}): cached reply {verdict} differs from the original {(o['blocked'], o['success'], o['action'], o['token'])}")
                 z, y = o["vz"], o["vy"]
             else:
@@ -746,7 +1030,8 @@ class C07(Check):
                 z = r["z"] if r["exec_called"] else NOT_ASKED
                 y = r["y"] if r["assess_called"] else NOT_ASKED
                 r["vz"], r["vy"] = z, y
-                original[(r["loop"], r["prompt"])] = r
+                key = (r["loop"], r["prompt"])
+                original[key] = [r] + [c for c in original.get(key, []) if c["done"] > r["begun"]]
             if not r["blocked"] and not spec_pass(logic, z, y):
                 if z == 7 or y == 7:
                     return Violation("C07/exception-not-blocked", f"request {i} ({r['prompt']!r}): {'the executor' if z == 7 else 'the assessor'} raised but the result is not blocked ({logic}; action {r['action']}, cached flag {r['cached']}, token {'yes' if r['token'] else 'no'})")
@@ -765,12 +1050,16 @@ class C07(Check):
                     return Violation("C07/token-shared-between-requests", f"request {i}: the token for {r['prompt']!r} carries the same request hash {h} as the token given for {token_for[h]!r}")
         return None
 
+    @staticmethod
+    def _prompts(case):
+        return {op[2] for op in case["ops"] if op[1] == "r"} | {op[3] for op in case["ops"] if op[1] == "b"}
+
     def nontrivial(self, case, obs, trace):
         recs = [r for r in trace.get("recs", []) if r.get("op") == "r"]
-        if len(case["ops"]) <= 3 and len({op[2] for op in case["ops"] if op[1] == "r"}) == 1:
+        if len(case["ops"]) <= 3 and len(self._prompts(case)) == 1:
             return True         # a cell of one of the enumerated tables
         return any(r.get("cached") or r.get("raised") or r.get("blocked") is False or r["z"] == 7 or r["y"] == 7
-                   or r.get("action") == "CIRCUIT_OPEN" for r in recs)
+                   or r.get("action") == "CIRCUIT_OPEN" or r.get("overlapped") for r in recs)
 
     def classify(self, case, obs, trace):
         ks = [f"loops={len(case['loops'])}", f"ops<={((len(case['ops']) + 3) // 4) * 4}"]
@@ -781,12 +1070,30 @@ class C07(Check):
                    f"silent={bool(cfg.get('silent', True))}", f"agents={cfg.get('agents', 'stub')}",
                    f"callbacks={'recording' if cfg.get('callbacks') else 'none'}"]
         passed = set()
-        for p in {op[2] for op in case["ops"] if op[1] == "r"}:
+        for p in self._prompts(case):
             ks += prompt_tags(p)
-        for r in trace.get("recs", []):
+        if case.get("overlap"):
+            ks.append(f"overlap={case['overlap']}")
+        recs = trace.get("recs", [])
+        for i, r in enumerate(recs):
             if r["op"] != "r":
-                ks.append({"c": "op=clear_cache", "o": "op=read-only-calls", "x": "op=reset_circuit_breaker"}[r["op"]])
+                ks.append({"c": "op=clear_cache", "o": "op=read-only-calls", "x": "op=reset_circuit_breaker",
+                           "b": "op=begin(now in flight)", "e": "op=end(nothing in flight)"}[r["op"]])
                 continue
+            if r.get("overlapped"):
+                # what happened on the same loop object while this request was inside an agent
+                between = [q for q in recs[r["begun"] + 1:i] if q["loop"] == r["loop"]]
+                ks.append("overlap/reply-after-suspension")
+                if any(q["op"] == "r" and q["prompt"] == r["prompt"] for q in between):
+                    ks.append("overlap/same-prompt-answered-meanwhile")
+                if any(q["op"] == "r" and q["prompt"] != r["prompt"] for q in between):
+                    ks.append("overlap/other-prompt-answered-meanwhile")
+                if any(q["op"] == "b" for q in between):
+                    ks.append("overlap/another-request-begun-meanwhile")
+                if any(q["op"] == "c" for q in between):
+                    ks.append("overlap/cache-cleared-meanwhile")
+            elif r.get("begun") is not None and case["ops"][r["begun"]][1] == "b":
+                ks.append("overlap/begin-returned-at-once")
             if "raised" in r:
                 ks.append("run-raised")
                 continue
